@@ -1,9 +1,9 @@
 #!/bin/bash
 # usage: tools/integrate.sh <work copy dir>  — development helper: copies a hardening worker's changed files into /verif
 # (rule files, engine extension files, new refactor patches) that differ from the base snapshot the copy was made from
-# (/tmp/base = git archive of that commit); shared files are never taken.
+# (/tmp/base2 = git archive of that commit); shared files are never taken.
 w=${1:?work copy}; cd /verif
-diff -rq --exclude=bin --exclude=evidence --exclude=.git --exclude='*.log' "$w" /tmp/base | while read -r line; do
+diff -rq --exclude=bin --exclude=evidence --exclude=.git --exclude='*.log' "$w" /tmp/base2 | while read -r line; do
   case "$line" in
     "Files "*) f=$(echo "$line" | awk '{print $2}'); rel=${f#$w/};;
     "Only in $w"*) d=$(echo "$line" | sed -E 's/^Only in ([^:]+): (.*)$/\1\/\2/'); rel=${d#$w/};;
@@ -11,7 +11,8 @@ diff -rq --exclude=bin --exclude=evidence --exclude=.git --exclude='*.log' "$w" 
   esac
   case "$rel" in
     checker/internal/an/an.go|checker/internal/an/lockset.go|checker/internal/an/loops.go|checker/internal/an/hx_ext.go|checker/internal/rules/common.go|checker/internal/rules/registry.go|checker/internal/rules/crosslinks.go|checker/internal/rt/*|checker/internal/load/*|checker/cmd/*|run.sh|setup.sh|tools/*|DESIGN.md|MANIFEST.json|manifest_src.json|known_findings.json|gen_manifest.py|seeded/*) echo "SKIP shared: $rel";;
-    checker/*|refactors/*) mkdir -p "$(dirname "/verif/$rel")"; cp -r "$w/$rel" "/verif/$rel"; echo "took $rel";;
+    refactors/*) if [ -e "/verif/$rel" ]; then echo "SKIP existing: $rel"; else mkdir -p "$(dirname "/verif/$rel")"; cp -r "$w/$rel" "/verif/$rel"; echo "took $rel"; fi;;
+    checker/*) mkdir -p "$(dirname "/verif/$rel")"; cp -r "$w/$rel" "/verif/$rel"; echo "took $rel";;
     *) echo "SKIP other: $rel";;
   esac
 done
